@@ -43,6 +43,7 @@ std::vector<json> alphabet9()
 	mk("setlist", "il", {{"vals", json::array()}});
 	mk("setmulti", "il", {{"vals", json::array({"10", "11"})}});
 	mk("setmulti", "il", {{"vals", json::array({"10", "zz"})}}); // refused
+	mk("setmulti", "il", {{"vals", json::array()}});             // no values: refused
 	mk("addlist", "sl", {{"vals", json::array({"a"})}});
 	mk("setlist", "sl", {{"vals", json::array({"b", "c"})}});
 	mk("addtsec", "ms", {{"title", "t1"}});
@@ -57,7 +58,7 @@ std::vector<json> alphabet9()
 	return a;
 }
 
-const uint64_t A9 = 24;
+const uint64_t A9 = 25;
 const uint64_t ENUM9 = A9 + A9 * A9 + A9 * A9 * A9; // all sequences of length 1..3
 // start states: 0 pristine, 1 produced by an accepted parse
 const uint64_t ENUM9_TOTAL = 2 * ENUM9;
@@ -96,7 +97,7 @@ json enumerated_plan(uint64_t e)
 
 json generate(uint64_t seed, uint64_t idx, int tier)
 {
-	// thorough: all call sequences up to depth 3 over the 24-call alphabet, from both start states (27,696 plans), then seeded
+	// thorough: all call sequences up to depth 3 over the 25-call alphabet, from both start states (32,550 plans), then seeded
 	// histories; quick: the depth-<=2 part from the pristine state (600 plans) first
 	if (tier && idx < ENUM9_TOTAL)
 		return enumerated_plan(idx);
@@ -107,10 +108,15 @@ json generate(uint64_t seed, uint64_t idx, int tier)
 	SchemaGen sg;
 	sg.max_opts = 6;
 	sg.max_depth = 2;
+	sg.simple = true; // some top-level scalars are bound to application variables
 	json schema = gen_schema(r, sg);
 	plan["schemas"] = json::array({schema});
 	int flags = 0; // title matching under CFGF_NOCASE is not specified by the statement: not generated
 	int nclients = r.chance(1, 4) ? 2 : 1;
+	if (nclients > 1)
+		for (auto &o : schema["opts"])
+			o.erase("simple"); // two contexts from these declarations would share the variable (that is its contract)
+	plan["schemas"] = json::array({schema});
 	json steps = json::array();
 	for (int cl = 0; cl < nclients; cl++) {
 		json init = step(cl, "init", 0);
@@ -297,8 +303,8 @@ Property P = [] {
 	p.rule = "seeded schemas (scalars, lists, nested single / multi / titled sections, no-default options; no callbacks) and histories of 3-30 API calls over the alphabet {typed "
 		 "setters by name and by option with index, list set/append, bulk string set, titled-section add, remove by index / title / path, annotation, set-from-text, getters, "
 		 "deliberately illegal calls (wrong type, unknown name, index beyond a scalar)} from the pristine state or from a state produced by an accepted parse, for 1 or 2 "
-		 "interleaved clients; every call is stepped against the abstract store; before the seeded part ALL call sequences of length 1..3 over a fixed 24-call alphabet on a fixed "
-		 "schema are enumerated, from the pristine state and from a parsed state (27,696 plans, thorough tier; the 600 sequences of length <= 2 from the pristine state in the quick "
+		 "interleaved clients; every call is stepped against the abstract store; before the seeded part ALL call sequences of length 1..3 over a fixed 25-call alphabet on a fixed "
+		 "schema are enumerated, from the pristine state and from a parsed state (32,550 plans, thorough tier; the 650 sequences of length <= 2 from the pristine state in the quick "
 		 "tier); distinct = distinct (history, schema) pairs";
 	p.assumptions = {"M-store rules come from the statement; where it is silent the call is a don't-care and the model is re-synchronised from the observation: indexed setter on a list still "
 			 "holding pristine defaults or at/beyond its end, bulk set of several values on a scalar, titled add on non-(multi+title) sections, set-from-text, annotation, parse, "
